@@ -824,6 +824,13 @@ pub fn gen_srv(rng: &mut Rng, count: u64, tier: &str) -> Vec<String> {
         out.push(format!("srv {flags} 0 {tree} q0:{}:UP300_1;q1:{}:D;{probe}", hex(&req(2, b"empty", &[])), hex(&req(1, b"empty", &[]))));
         out.push(format!("srv {flags} 0 {tree} q0:{}:D;q1:{}:UP0_0;{probe}", hex(&req(1, b"empty", &[("tsize".to_string(), "0".to_string())])), hex(&req(2, b"sub/../empty", &[]))));
     }
+    // --overwrite: a completed upload replaces the old content entirely (shorter than what was there, also empty)
+    for flags in ["o", "so", "do", "ok"] {
+        for (name, len) in [("a.txt", 7u64), ("a.txt", 0), ("sub/b.bin", 512), ("old.bin", 1000), ("tiny", 1)] {
+            let o = vec![("blksize".to_string(), "512".to_string())];
+            out.push(format!("srv {flags} 0 {tree} q0:{}:UP{len}_2;q1:{}:D;{probe}", hex(&req(2, name.as_bytes(), &o)), hex(&req(1, name.as_bytes(), &[]))));
+        }
+    }
     // single-port mode: a transfer with a small block size does not shrink what the listener can take afterwards
     for (flags, w) in [("sr", "new.bin"), ("s", "a.txt"), ("so", "a.txt")] {
         let small = hex(&req(1, b"a.txt", &[("blksize".to_string(), "8".to_string())]));
